@@ -3,6 +3,8 @@ package sx
 import (
 	"fmt"
 	"go/types"
+	"sort"
+	"strings"
 	"sync"
 
 	"golang.org/x/tools/go/ssa"
@@ -18,6 +20,7 @@ type goroutine struct {
 	blocked bool
 	forever bool // blocked on a nil channel / empty select
 	waitOn  string
+	waitFn  string // repo function in which the goroutine blocked
 	name    string
 	isHost  bool // has its own host goroutine (all but G0)
 }
@@ -319,8 +322,34 @@ func (s *scheduler) deadlock(g *goroutine) {
 	w.endPath("violation-end", "deadlock: "+desc)
 }
 
+// deadlockLabel names the repo functions in which the goroutines are stuck, so that different
+// deadlocks have different fingerprints.
 func (w *Worker) deadlockLabel() string {
-	return "deadlock"
+	set := map[string]bool{}
+	for _, g := range w.sched.gs {
+		if !g.done && g.blocked && g.waitFn != "" {
+			set[g.waitFn] = true
+		}
+	}
+	var names []string
+	for n := range set {
+		names = append(names, n)
+	}
+	sort.Strings(names)
+	if len(names) == 0 {
+		return "deadlock"
+	}
+	return "deadlock/" + strings.Join(names, "+")
+}
+
+// repoFn returns the innermost function of the code under test on fr's call stack.
+func repoFn(fr *frame) string {
+	for f := fr; f != nil; f = f.caller {
+		if f.fi != nil && f.fi.inRepo && !strings.Contains(f.fi.name, ".Verif") && !strings.Contains(f.fi.name, ".v") {
+			return shortFn(f.fi.name)
+		}
+	}
+	return ""
 }
 
 // ---------------------------------------------------------------------------------------------
@@ -445,6 +474,7 @@ func (w *Worker) chanSend(fr *frame, cv value, v value) {
 	}
 	s := &w.sched
 	g := fr.g
+	g.waitFn = repoFn(fr)
 	s.point(g, "send")
 	v = copyVal(v)
 	if c == nil {
@@ -472,6 +502,7 @@ func (w *Worker) chanRecv(fr *frame, instr *ssa.UnOp, cv value) value {
 	}
 	s := &w.sched
 	g := fr.g
+	g.waitFn = repoFn(fr)
 	s.point(g, "recv")
 	var v value
 	var rok bool
@@ -535,6 +566,7 @@ func (w *Worker) chanClose(fr *frame, cv value) {
 func (w *Worker) selectOp(fr *frame, instr *ssa.Select) value {
 	s := &w.sched
 	g := fr.g
+	g.waitFn = repoFn(fr)
 	s.point(g, "select")
 	type cs struct {
 		c    *channel
